@@ -104,7 +104,7 @@ def n_fds():
 def eval_history(state, arg):
     stream, sub, fixed_ops = arg
     rng = random.Random(sub)
-    pkg = docgen.gen_package(random.Random(sub), docgen.Knobs(max_blocks=3, max_runs=4, links=0.45, link_mixed_format=0.5, shared_part=0.0))
+    pkg = docgen.gen_package(random.Random(sub), docgen.Knobs(max_blocks=3, max_runs=4, links=0.45, link_mixed_format=0.5))
     data = pkg.to_bytes()
     html = rng.random() < 0.4
     dup = rng.random() < 0.7
